@@ -137,6 +137,9 @@ def real_socket(host='h', port=1):
     s._resolveAddr = lambda: [(2, 1, 6, '', (host, port))]
 
     def factory(family, type_):
+        if (family, type_) != (2, 1):       # socket(2) refuses anything but what the fake resolver returned
+            import socket as _socket
+            raise _socket.error(94, 'Socket type not supported')
         c = StepConn(s.eof_mid)
         c.owner = s
         c.buffered, s.next_buffered = list(s.next_buffered), []
